@@ -1,5 +1,253 @@
-"""External legs (sanitizer builds, Miri, fuzzing) implemented by the driver."""
+"""External legs implemented by the driver: the hook-free build, ThreadSanitizer, Miri, libFuzzer.
+
+Each returns (status, report|None, info) like vf.run_leg: status in {ok, inconclusive, crashed}.
+A report has the same shape as a vfh leg report.
+"""
+import json
+import os
+import re
+import subprocess
+import time
+
+
+def _blank(prop, leg, tier, seed):
+    return {"property": prop, "leg": leg, "profile": leg, "tier": tier, "seed": seed, "wall_s": 0.0,
+            "evaluations": 0, "distinct_nontrivial": 0, "counters": {}, "stats": {}, "samples": [],
+            "violations": [], "violation_counts": {}, "inconclusive": [], "notes": []}
+
+
+def _run(cmd, cwd, env, timeout):
+    t0 = time.time()
+    try:
+        p = subprocess.run(cmd, cwd=cwd, env=env, stdout=subprocess.PIPE, stderr=subprocess.PIPE, text=True, timeout=timeout)
+        return p.returncode, p.stdout, p.stderr, time.time() - t0
+    except subprocess.TimeoutExpired as e:
+        return None, (e.stdout or b"").decode() if isinstance(e.stdout, bytes) else (e.stdout or ""), "timeout", time.time() - t0
+
+
+def plain_salts(prop, leg, tier, seed, root, env):
+    """C08: build falcon-rust WITHOUT the verif-hooks feature, record salts through the public
+    API, and run the same history checker over them."""
+    d = os.path.join(root, "harness-plain")
+    rc, so, se, dt = _run(["cargo", "build", "--release", "--offline"], d, env, 1800)
+    if rc != 0:
+        return "inconclusive", None, "hook-free build failed: %s" % (se or "")[-500:]
+    n = 20000 if tier == "quick" else 400000
+    rc, so, se, dt = _run([os.path.join(d, "target", "release", "vfplain"), str(n)], d, env, 3600)
+    if rc is None:
+        return "inconclusive", None, "hook-free run: watchdog"
+    if rc != 0:
+        if rc < 0:
+            return "crashed", None, "hook-free build died with signal %d: %s" % (-rc, (se or "")[-500:])
+        return "inconclusive", None, "hook-free run exited %s: %s" % (rc, (se or "")[-500:])
+    os.makedirs(os.path.join(root, "work"), exist_ok=True)
+    path = os.path.join(root, "work", "plain-salts-%d.txt" % os.getpid())
+    with open(path, "w") as f:
+        f.write(so)
+    bad_verify = [l for l in so.splitlines() if l.endswith("false")]
+    out = os.path.join(root, "work", "plain-check-%d.json" % os.getpid())
+    vfh = os.path.join(root, "harness", "target", "release", "vfh")
+    rc, so2, se2, dt2 = _run([vfh, "run", "C08", "check-file", "--tier", tier, "--seed", str(seed), "--profile", "plain", "--out", out, "--", path], root, env, 600)
+    os.remove(path)
+    if rc != 0 or not os.path.exists(out):
+        return "inconclusive", None, "salt checker failed on the hook-free history: %s" % (se2 or "")[-300:]
+    rep = json.load(open(out))
+    os.remove(out)
+    rep["leg"] = leg["name"]
+    rep["counters"]["plain_build_signatures_rejected_by_verify"] = len(bad_verify)
+    return "ok", rep, ""
+
+
+TSAN_TARGET = "x86_64-unknown-linux-gnu"
+
+
+def tsan(prop, leg, tier, seed, root, env):
+    """Build the harness with -Zsanitizer=thread (-Zbuild-std) and run the concurrency legs of the
+    property under it. A ThreadSanitizer report is a violation of the concurrency clause."""
+    d = os.path.join(root, "harness")
+    e = dict(env)
+    e["RUSTFLAGS"] = "-Zsanitizer=thread -Cforce-frame-pointers=yes"
+    e["CARGO_TARGET_DIR"] = os.path.join(d, "target-tsan")
+    cmd = ["cargo", "+nightly", "build", "--release", "-Zbuild-std", "--target", TSAN_TARGET, "--no-default-features"]
+    rc, so, se, dt = _run(cmd, d, e, 3600)
+    if rc != 0:
+        return "inconclusive", None, "ThreadSanitizer build failed: %s" % (se or "")[-800:]
+    vfh = os.path.join(d, "target-tsan", TSAN_TARGET, "release", "vfh")
+    rep = _blank(prop, leg["name"], tier, seed)
+    e2 = dict(env)
+    e2["TSAN_OPTIONS"] = "halt_on_error=0 exitcode=66 report_signal_unsafe=0"
+    e2["VF_SCALE"] = leg.get("scale", "20")
+    e2["VF_THREADS"] = "8"
+    for sub in leg.get("sublegs", []):
+        sprop, sleg = sub
+        out = os.path.join(root, "work", "tsan-%s-%s-%d.json" % (sprop, sleg, os.getpid()))
+        os.makedirs(os.path.dirname(out), exist_ok=True)
+        rc, so, se, dt = _run([vfh, "run", sprop, sleg, "--tier", "quick", "--seed", str(seed), "--profile", "tsan", "--out", out], root, e2, 3600)
+        reports = len(re.findall(r"WARNING: ThreadSanitizer", se or ""))
+        rep["counters"]["tsan_reports_%s_%s" % (sprop, sleg)] = reports
+        rep["counters"]["tsan_runs"] = rep["counters"].get("tsan_runs", 0) + 1
+        if rc is None:
+            rep["inconclusive"].append("tsan %s/%s: watchdog" % (sprop, sleg))
+            continue
+        if reports > 0 or rc == 66:
+            first = (se or "").split("WARNING: ThreadSanitizer", 1)[-1][:1500]
+            rep["violations"].append({"signature": "tsan:data-race", "detail": "ThreadSanitizer reported %d issue(s) in %s/%s: %s" % (reports, sprop, sleg, first),
+                                      "replay": {"cmd": "tsan build; vfh run %s %s" % (sprop, sleg)}})
+            rep["violation_counts"]["tsan:data-race"] = rep["violation_counts"].get("tsan:data-race", 0) + reports
+            continue
+        if rc != 0 or not os.path.exists(out):
+            rep["inconclusive"].append("tsan %s/%s exited %s: %s" % (sprop, sleg, rc, (se or "")[-300:]))
+            continue
+        sub_rep = json.load(open(out))
+        os.remove(out)
+        rep["evaluations"] += sub_rep["evaluations"]
+        rep["distinct_nontrivial"] += sub_rep["distinct_nontrivial"]
+        for k, v in sub_rep["counters"].items():
+            rep["counters"]["%s_%s" % (sleg, k)] = v
+        rep["violations"] += sub_rep["violations"]
+        for k, v in sub_rep["violation_counts"].items():
+            rep["violation_counts"][k] = rep["violation_counts"].get(k, 0) + v
+        rep["inconclusive"] += sub_rep["inconclusive"]
+        rep["samples"].append({"sanitizer": "thread", "leg": "%s/%s" % (sprop, sleg), "tsan_reports": reports, "wall_s": round(dt, 1)})
+    rep["wall_s"] = 0.0
+    return "ok", rep, ""
+
+
+def miri(prop, leg, tier, seed, root, env):
+    """Run harness-miri under Miri, sharded into short processes."""
+    d = os.path.join(root, "harness-miri")
+    rep = _blank(prop, leg["name"], tier, seed)
+    shards = leg.get("shards", [])
+    procs = []
+    e = dict(env)
+    e["MIRIFLAGS"] = leg.get("miriflags", "-Zmiri-disable-isolation")
+    e["CARGO_TARGET_DIR"] = os.path.join(d, "target")
+    # build once (first shard compiles; the others reuse) -- run the first shard alone
+    t0 = time.time()
+    pending = list(shards)
+    results = []
+    maxpar = 14
+
+    def launch(sh):
+        cmd = ["cargo", "+nightly", "miri", "run", "--offline", "--"] + [str(x) for x in sh]
+        e3 = dict(e)
+        if len(sh) >= 3 and str(sh[0]).startswith("sign"):
+            e3["MIRIFLAGS"] = e["MIRIFLAGS"] + " -Zmiri-seed=%s" % sh[-1]
+        return subprocess.Popen(cmd, cwd=d, env=e3, stdout=subprocess.PIPE, stderr=subprocess.PIPE, text=True)
+
+    if not pending:
+        return "inconclusive", None, "no miri shards configured"
+    first = pending.pop(0)
+    p = launch(first)
+    try:
+        so, se = p.communicate(timeout=leg.get("timeout_s", 5400))
+    except subprocess.TimeoutExpired:
+        p.kill()
+        return "inconclusive", None, "miri: watchdog on the first shard"
+    results.append((first, p.returncode, so, se))
+    while pending or procs:
+        while pending and len(procs) < maxpar:
+            sh = pending.pop(0)
+            procs.append((sh, launch(sh), time.time()))
+        still = []
+        for sh, pr, ts in procs:
+            if pr.poll() is None:
+                if time.time() - ts > leg.get("timeout_s", 5400):
+                    pr.kill()
+                    results.append((sh, None, "", "watchdog"))
+                else:
+                    still.append((sh, pr, ts))
+            else:
+                so, se = pr.communicate()
+                results.append((sh, pr.returncode, so, se))
+        procs = still
+        time.sleep(0.5)
+    for sh, rc, so, se in results:
+        name = " ".join(str(x) for x in sh)
+        rep["counters"]["miri_shards"] = rep["counters"].get("miri_shards", 0) + 1
+        m = re.search(r"VFMIRI cases=(\d+) distinct=(\d+) violations=(\d+)", so or "")
+        ub = "Undefined Behavior" in (se or "") or "error: Undefined" in (se or "") or "Data race detected" in (se or "")
+        if ub:
+            first = (se or "")
+            i = first.find("error")
+            rep["violations"].append({"signature": "miri:undefined-behaviour", "detail": "Miri reported undefined behaviour / a data race in shard [%s]: %s" % (name, first[i:i + 1500]),
+                                      "replay": {"cmd": "cd harness-miri && cargo +nightly miri run -- %s" % name}})
+            rep["violation_counts"]["miri:undefined-behaviour"] = rep["violation_counts"].get("miri:undefined-behaviour", 0) + 1
+            continue
+        if rc is None:
+            rep["inconclusive"].append("miri shard [%s]: watchdog" % name)
+            continue
+        if m is None:
+            rep["inconclusive"].append("miri shard [%s] exited %s without a summary: %s" % (name, rc, (se or "")[-400:]))
+            continue
+        rep["evaluations"] += int(m.group(1))
+        rep["distinct_nontrivial"] += int(m.group(2))
+        nv = int(m.group(3))
+        if nv > 0:
+            lines = [l for l in so.splitlines() if l.startswith("VFMIRI-VIOLATION")]
+            for l in lines[:3]:
+                rep["violations"].append({"signature": "miri:" + l.split(" ", 2)[1], "detail": l, "replay": {"cmd": "cd harness-miri && cargo +nightly miri run -- %s" % name}})
+            rep["violation_counts"]["miri:oracle"] = rep["violation_counts"].get("miri:oracle", 0) + nv
+        if len(rep["samples"]) < 3:
+            rep["samples"].append({"interpreter": "miri", "shard": name, "cases": int(m.group(1))})
+    rep["wall_s"] = time.time() - t0
+    return "ok", rep, ""
+
+
+def fuzz(prop, leg, tier, seed, root, env):
+    d = os.path.join(root, "fuzz")
+    rep = _blank(prop, leg["name"], tier, seed)
+    secs = leg.get("seconds", 120)
+    e = dict(env)
+    e.pop("CARGO_NET_OFFLINE", None)
+    corpus = os.path.join(root, "work", "fuzz-corpus-%d" % os.getpid())
+    os.makedirs(corpus, exist_ok=True)
+    seeddir = os.path.join(root, "corpus", "fuzz-seeds")
+    cmd = ["cargo", "+nightly", "fuzz", "run", "decode_verify", corpus]
+    if os.path.isdir(seeddir):
+        cmd.append(seeddir)
+    cmd += ["--", "-max_total_time=%d" % secs, "-timeout=10", "-max_len=2400", "-fork=14", "-seed=%d" % seed, "-ignore_crashes=0"]
+    rc, so, se, dt = _run(cmd, d, e, secs + 1800)
+    text = (se or "") + (so or "")
+    execs = [int(x) for x in re.findall(r"#(\d+):? ", text)]
+    cov = [int(x) for x in re.findall(r"cov: (\d+)", text)]
+    rep["evaluations"] = max(execs) if execs else 0
+    rep["distinct_nontrivial"] = max(cov) if cov else 0
+    rep["counters"]["fuzz_seconds"] = secs
+    rep["counters"]["fuzz_coverage_edges"] = max(cov) if cov else 0
+    art = os.path.join(d, "artifacts", "decode_verify")
+    crashes = [f for f in (os.listdir(art) if os.path.isdir(art) else []) if f.startswith("crash-")]
+    import shutil
+    if crashes:
+        os.makedirs(os.path.join(root, "replays"), exist_ok=True)
+        for c in crashes[:3]:
+            data = open(os.path.join(art, c), "rb").read()
+            rep["violations"].append({"signature": "fuzz:crash", "detail": "libFuzzer crash input %s (%d bytes): %s" % (c, len(data), text[-600:]),
+                                      "replay": {"kind": "fuzz-input", "bytes": data.hex()}})
+        rep["violation_counts"]["fuzz:crash"] = len(crashes)
+        shutil.rmtree(art, ignore_errors=True)
+    elif rc is None:
+        rep["inconclusive"].append("fuzzer watchdog")
+    elif rc != 0:
+        rep["inconclusive"].append("fuzzer exited %s without a crash artifact: %s" % (rc, text[-400:]))
+    shutil.rmtree(corpus, ignore_errors=True)
+    rep["samples"].append({"fuzzer": "libFuzzer -fork=14", "executions": rep["evaluations"], "coverage_edges": rep["distinct_nontrivial"], "seconds": secs})
+    if rep["distinct_nontrivial"] < 2 and not rep["inconclusive"] and not crashes:
+        rep["inconclusive"].append("fuzzer reported no coverage")
+    return "ok", rep, ""
 
 
 def run_external(prop, leg, tier, seed, root, env):
+    kind = leg["external"]
+    try:
+        if kind == "plain-salts":
+            return plain_salts(prop, leg, tier, seed, root, env)
+        if kind == "tsan":
+            return tsan(prop, leg, tier, seed, root, env)
+        if kind == "miri":
+            return miri(prop, leg, tier, seed, root, env)
+        if kind == "fuzz":
+            return fuzz(prop, leg, tier, seed, root, env)
+    except Exception as ex:  # harness error: never a violation
+        return "inconclusive", None, "external leg %s raised %r" % (leg["name"], ex)
     return "inconclusive", None, "external leg %s not implemented" % leg["name"]
